@@ -532,9 +532,10 @@ Definition fuse_step_ok (d : list (positive * sval)) (st : fstep) : bool :=
   | FAlias r a => memp r keys && negb (memp a keys) && negb (memp a (all_deps (keys ++ [a]) d))
   end.
 
-(* the guard conjunct of the alias step that exists because the CODE fails (finding C17-FUSE-ALIAS-COLLISION):
-   no value of the graph mentions the new key a where the scheduler reads strings.  dask.optimization.fuse
-   only checks that a is not yet a KEY. *)
+(* (informational since /repo c89db96: optimize.py calls fuse(rename_keys=False), no alias step is taken any more;
+   former finding C17-FUSE-ALIAS-COLLISION) the condition under which an alias step is harmless: no value of the
+   graph mentions the new key a where the scheduler reads strings.  dask.optimization.fuse only checks that a is
+   not yet a KEY. *)
 Definition g_alias_unmentioned (d : list (positive * sval)) (a : positive) : bool :=
   negb (memp a (all_deps (map fst d ++ [a]) d)).
 
@@ -554,6 +555,10 @@ Fixpoint fuse_steps_weak (d : list (positive * sval)) (l : list fstep) : bool * 
       (fuse_step_ok_weak d st && ok,
        match st with FAlias _ a => negb (g_alias_unmentioned d a) | FInline _ => false end || clash)
   end.
+
+(* fuse(dsk, rename_keys=False), as optimize.py calls it since /repo c89db96, only inlines *)
+Definition inline_only (l : list fstep) : bool :=
+  forallb (fun st => match st with FInline _ => true | FAlias _ _ => false end) l.
 
 (* no step removes the key r or introduces it as an alias *)
 Definition avoids (r : positive) (l : list fstep) : bool :=
